@@ -1,4 +1,5 @@
 import ConduitModel.Driver.Dlq
+import ConduitModel.Driver.Funnel
 
 /-
 `driver <component>` : reads cases from stdin (one per line), writes one result line per case.
@@ -9,6 +10,7 @@ open Conduit.Driver
 def component (name : String) : Option (String → String) :=
   match name with
   | "dlqwindow" => some dlqLine
+  | "funnel" => some funnelLine
   | _ => none
 
 partial def loop (h : IO.FS.Stream) (out : IO.FS.Stream) (f : String → String) : IO Unit := do
